@@ -131,6 +131,45 @@ func (c *CheckCtx) cleanModel() error {
 		return inconclusive("the line-level model of examineSnaps violates %s in the specification itself (no verdict about the code)\n%s", res.ViolatedBy, tail([]byte(res.Output), 2000))
 	}
 	c.model(cfg, res, true, "P_C07, P_C09, P_C10 hold on every enumerated (file, live set, delete, sort) case")
+	return c.contractCleanModel()
+}
+
+// contractCleanModel model-checks the contract as a closed state machine with Clean as a transition
+// (Contract!CClean, MC_ContractClean): processes that record, replay, update, skip and call Clean
+// once or twice over a persistent directory.  Quick tier: random behaviours (5 calls, 4 processes);
+// thorough tier additionally the exhaustive small universe (2 tests, 1 directory, 2 calls, 2 processes).
+func (c *CheckCtx) contractCleanModel() error {
+	const props = "P_Shape, P_C07, P_C08, P_C09, P_C10, P_Idem, P_Exact, P_Replay and the action properties A_OnlyCallsWrite, A_OnlyCleanRemoves, A_CountsGrow"
+	dir, err := specDir(c.Sc, c.Sc.Next("mc"))
+	if err != nil {
+		return err
+	}
+	num := "200"
+	if c.thorough() {
+		num = "20000"
+	}
+	res, err := runTLC(dir, "MC_ContractClean.tla", "MC_ContractClean_sim.cfg", c.Workers, 20*time.Minute, "-simulate", "num="+num, "-depth", "40", "-seed", fmt.Sprint(c.Seed))
+	if err != nil {
+		return err
+	}
+	if res.Violation {
+		return inconclusive("the contract with Clean as a transition violates %s in the specification itself (no verdict about the code)\n%s", res.ViolatedBy, tail([]byte(res.Output), 2000))
+	}
+	c.model("MC_ContractClean_sim.cfg (simulation, up to 5 calls per process, 4 processes, "+num+" behaviours per worker)", res, false, props+" hold in every state of the sampled behaviours")
+	if c.thorough() {
+		dir2, err := specDir(c.Sc, c.Sc.Next("mc"))
+		if err != nil {
+			return err
+		}
+		res2, err := runTLC(dir2, "MC_ContractClean.tla", "MC_ContractClean.cfg", c.Workers, 30*time.Minute)
+		if err != nil {
+			return err
+		}
+		if res2.Violation {
+			return inconclusive("the contract with Clean as a transition violates %s in the specification itself (no verdict about the code)\n%s", res2.ViolatedBy, tail([]byte(res2.Output), 2000))
+		}
+		c.model("MC_ContractClean.cfg", res2, true, props+" hold on all behaviours of the small universe (2 tests, 1 directory, 2 values, 4 process modes, 2 calls per process, 2 processes, Clean once or twice)")
+	}
 	return nil
 }
 
